@@ -101,19 +101,20 @@ def _acyclic(ctx, st, ode):
     s2 = I.State({"ode": ode}, st.pc, st.decisions, st.assumed)
     return ctx.ev_contract_expr(
         "0 <= depth(Matrix(map_expr(ode.sorted_state_derivatives(), len(ode.sorted_state_derivatives()))), "
-        "subst_map(ode.intermediates, len(ode.intermediates))) and "
+        "subst_map(ode.intermediates + ode.state_derivatives, len(ode.intermediates + ode.state_derivatives))) and "
         "depth(Matrix(map_expr(ode.sorted_state_derivatives(), len(ode.sorted_state_derivatives()))), "
-        "subst_map(ode.intermediates, len(ode.intermediates))) <= dict_len(subst_map(ode.intermediates, len(ode.intermediates)))", s2)
+        "subst_map(ode.intermediates + ode.state_derivatives, len(ode.intermediates + ode.state_derivatives))) <= "
+        "dict_len(subst_map(ode.intermediates + ode.state_derivatives, len(ode.intermediates + ode.state_derivatives)))", s2)
 
 
 contract(
     T + "rhs_matrix", params={"ode": "ODE", "max_tries": "Int"}, ret="Mat", raises=RAISES,
     requires=["WF(ode)", "acyclic(ode)"],
     where={"SD": "ode.sorted_state_derivatives()", "RHS0": "Matrix(map_expr(SD, len(SD)))",
-           "SUB": "subst_map(ode.intermediates, len(ode.intermediates))"},
+           "SUB": "subst_map(ode.intermediates + ode.state_derivatives, len(ode.intermediates + ode.state_derivatives))"},
     ensures={"every_intermediate_expanded": "depth(result, SUB) == 0",
              "rows_follow_sorted_state_derivatives": "result_passes(result, RHS0, SUB)"},
-    comps={0: "subst_map(ode.intermediates, j)", 1: "map_expr(SD, j)"},
+    comps={0: "subst_map(ode.intermediates + ode.state_derivatives, j)", 1: "map_expr(SD, j)"},
     abstractions={"any([rhs.has(k) for k in intermediates.keys()])": "needs_pass(rhs, intermediates)"},
     loops={0: {"invariant": {"progress": "depth(rhs, intermediates) + num_tries == depth(RHS0, SUB) and num_tries >= 0 and depth(rhs, intermediates) >= 0",
                              "same_rows": "result_passes(rhs, RHS0, SUB)"},
